@@ -170,6 +170,7 @@ type pathState struct {
 	pc          []*smt.Term
 	out         outcome
 	transitions int
+	edges       int
 	asserts     int
 	assertsHit  map[string]int
 	known       map[string]bool
@@ -234,6 +235,7 @@ type Stats struct {
 	Paths        int64 // completed (ok) paths = states
 	Discarded    int64
 	Transitions  int64 // solver-decided decisions
+	Edges        int64 // edges of the explored decision tree (solver decisions + harness/scheduler choices)
 	Queries      int64
 	SolverNS     int64
 	AssertChecks int64
@@ -510,5 +512,6 @@ func (e *Explorer) runPath(sol *smt.Solver, spec *PathSpec) (*PathResult, []*Pat
 		res.Obs = append(res.Obs, rec)
 	}
 	atomic.AddInt64(&e.stats.Transitions, int64(ps.transitions))
+	atomic.AddInt64(&e.stats.Edges, int64(ps.edges))
 	return res, ps.alts
 }
